@@ -23,10 +23,12 @@ BUDGET_S = {"quick": 20, "thorough": 500}
 FLOORS = {
     "quick": {"evaluations": 3000, "distinct": 200,
               "counters": {"compares": 3000, "uses_super": 300, "uses_self": 100,
-                           "uses_scoped": 100, "uses_required": 50, "required_error": 10}},
+                           "uses_scoped": 100, "uses_required": 50, "required_error": 10,
+                           "uses_scoped_reads_loop": 50, "uses_block_in_toplevel_if": 100}},
     "thorough": {"evaluations": 60000, "distinct": 2000,
                  "counters": {"compares": 60000, "uses_super": 6000, "uses_self": 2000,
-                              "uses_scoped": 2000, "uses_required": 1000, "required_error": 200}},
+                              "uses_scoped": 2000, "uses_required": 1000, "required_error": 200,
+                              "uses_scoped_reads_loop": 1000, "uses_block_in_toplevel_if": 2000}},
 }
 
 
